@@ -665,7 +665,25 @@ pub fn random_op(r: &mut Rng, u: &Universe, w: &World, last: &Option<Op>, live: 
         x if x < mx[2] => Op::Update { s, page, f: leaf_flags(r) },
         x if x < mx[3] => Op::SetFlags { s, page, k: 2 + r.below(3) as u8, f: parent_flags(r) },
         x if x < mx[4] => Op::TranslatePage { s, page },
-        x if x < mx[5] => Op::Translate { va: page.wrapping_add(r.below(1 << (12 + 9 * s as u64))) },
+        x if x < mx[5] => {
+            if w.rix >= 0 && r.chance(1, 8) {
+                // an address inside the recursive slot: it translates to page-table memory, as
+                // the hardware walk through the recursive entry says
+                let rx = w.rix as u64;
+                let mut ix = [rx, 0, 0, 0];
+                for k in 1..4 {
+                    ix[k] = match r.below(4) {
+                        0 => rx,
+                        1 => *r.pick(&u.i4),
+                        2 => *r.pick(&u.i3),
+                        _ => *r.pick(&u.i1),
+                    };
+                }
+                let va = canon((ix[0] << 39) | (ix[1] << 30) | (ix[2] << 21) | (ix[3] << 12) | r.below(4096));
+                return Op::Translate { va };
+            }
+            Op::Translate { va: page.wrapping_add(r.below(1 << (12 + 9 * s as u64))) }
+        }
         _ => {
             if r.chance(1, 3) {
                 Op::Clean { full: true, a: 0, b: 0 }
